@@ -74,3 +74,10 @@ Example C12_nonvacuous :
   infect inf sus one one [0; 1; 2; 3] nets [[(1#10); (1#10); (3#10)]; [(1#10); (1#10); (1#10)]; [(1#10)]]%Q
     = Some [(1, 0, 0); (2, 3, 0)].
 Proof. vm_compute. reflexivity. Qed.
+
+(* ... and the proviso "same calls made" of C12_beta_monotone cannot be dropped: a direction with beta = 0 makes no call, so raising an earlier beta from 0
+   to a positive value shifts the shared random stream of all later calls and can REMOVE infections (listed finding zero-beta-skips-shared-transmission-draw) *)
+Theorem C12_beta_monotone_across_zero_refuted : exists rt rs nets nets' rands t s i,
+  Forall2 net_le_weak nets nets' /\ In (EvHit t s, i) (all_events rt rs nets rands) /\ ~ In (EvHit t s, i) (all_events rt rs nets' rands).
+Proof. exact beta_monotone_needs_same_calls. Qed.
+Print Assumptions C12_beta_monotone_across_zero_refuted.
